@@ -8,7 +8,7 @@ MODULES = ["BeffVerif.Props.C02", "BeffVerif.Props.C02Eval", "BeffVerif.Props.C0
 AUDIT = "BeffVerif/Audit/C02.lean"
 TAGS = ("c02.",)
 MODE = "schema"
-HYP = {"NoRequiredUndefinedAcceptingProp": "D48", "NoMultiValuedDiscriminator": "D49", "NoMixedIndexRT": "D50", "NoProtoNamedKeys": "D51", "NoSplitIntersection": "D9s"}
+HYP = {"NoRequiredUndefinedAcceptingProp": "D48", "NoMultiValuedDiscriminator": "D49", "NoMixedIndexRT": "D50", "NoProtoNamedKeys": "D51", "NoSplitIntersection": "D9s", "IntersectionsOfTypeofObject": "D22s"}
 OPEN = ["soundness and the converse are proved for the flat schema of the structural fragment (Props/C02Sound.lean `schema_sound_frag`, Props/C02Complete.lean `schema_complete_frag` / `schema_exact_frag`); every emitted $ref resolves is a theorem for every type and every history of returning calls (Props/C16Refs `returned_refs_resolve` / `definition_refs_resolve`); VALIDITY for intersections, index signatures, discriminated unions and the contextual mode with $ref is decided by python jsonschema on the real schemas",
         "known deviations: D48 (required property whose type accepts undefined), D49 (multi-valued discriminator under oneOf), D50 (index signature applied to declared properties), D51 (prototype-named declared properties), D9 (named intersections in strict mode)"]
 RULE = ("random (environment, runtype) with JSON documents (type-directed members, near-misses, random JSON): the REAL schema() and schemaWithContext()+exportDefinitions() "
